@@ -71,11 +71,16 @@ ActKill            == [a |-> "kill", h |-> 0, i |-> 0, np |-> FALSE, reuse |-> F
 \* index forms used by the configurations (cfg files cannot hold negatives)
 FormsAll   == {[i |-> j, np |-> FALSE] : j \in (0 - N)..(N - 1)}
                 \cup {[i |-> j, np |-> TRUE] : j \in 0..(N - 1)}
+                \cup {[i |-> 100 + j, np |-> FALSE] : j \in 0..(N - 1)}
 FormsSmall == {[i |-> j, np |-> FALSE] : j \in 0..(N - 1)}
-                \cup {[i |-> 0 - 1, np |-> FALSE], [i |-> N - 1, np |-> TRUE]}
+                \cup {[i |-> 0 - 1, np |-> FALSE], [i |-> N - 1, np |-> TRUE],
+                      [i |-> 100, np |-> FALSE]}
 FormsPos   == {[i |-> j, np |-> FALSE] : j \in 0..(N - 1)}
 FormsEdge  == FormsAll \cup {[i |-> N, np |-> FALSE], [i |-> 0 - N - 1, np |-> FALSE]}
 
+\* an index form i >= 100 stands for the access BY KEY ds[key of position i - 100]
+\* (CacheDataset.__getitem__: item = self.keys().index(item), then as by position)
+Pos(i) == IF i >= 100 THEN i - 100 ELSE i
 InRange(n, i) == (0 - n) <= i /\ i < n
 Norm(n, i)    == IF i < 0 THEN i + n ELSE i
 \* the key under which CacheDataset.__getitem__ looks up / stores `item`
@@ -137,14 +142,14 @@ StepAccess(n, s, a) ==
   LET w     == s.hd[a.h].w
       W     == s.wr[w]
       store == IF W.det THEN W.snap ELSE s.dir.ent
-      key   == KeyOf(n, a.i, a.np)
+      key   == KeyOf(n, Pos(a.i), a.np)
       hits  == {x \in store : x.k = key.k /\ x.np = key.np}
   IN IF hits # {}
      THEN LET x == CHOOSE x \in hits : TRUE      \* hit: no upstream call
           IN [s |-> s, o |-> OkVal(x.e, x.c)]
-     ELSE IF ~InRange(n, a.i)
+     ELSE IF ~InRange(n, Pos(a.i))
      THEN [s |-> s, o |-> Err("IndexError")]     \* input_dataset[item] raises
-     ELSE LET j  == Norm(n, a.i)
+     ELSE LET j  == Norm(n, Pos(a.i))
               c  == s.calls[j + 1] + 1           \* upstream call
               s1 == [s EXCEPT !.calls[j + 1] = c]
               x  == [k |-> key.k, np |-> key.np, e |-> j, c |-> c]
@@ -273,8 +278,8 @@ ObsStep(n, A, t, a, o) ==
       clr     == lastRel /\ A.wcl[w]
       \* ---- access bookkeeping -------------------------------------------
       acc   == a.a = "access" /\ liveH
-      inr   == InRange(n, a.i)
-      j     == Norm(n, a.i)
+      inr   == InRange(n, Pos(a.i))
+      j     == Norm(n, Pos(a.i))
       first == {x \in A.seen : x.e = j}
       known == acc /\ inr /\ first # {}
       comp  == acc /\ inr /\ o.calls[j + 1] > A.calls[j + 1]
